@@ -327,7 +327,7 @@ func runCheck(id, tier string, ignoreKnown, verbose bool) int {
 			"samples":                  samples,
 			"bounded":                  nonNil(g.Bounded),
 			"notes":                    nonNil(dedup(g.Notes)),
-			"backends":                 "race of z3 5.1.0 (z3-new) and cvc5 1.0.3 (z3 4.8.12 excluded: it answered unsat on a satisfiable quantified query)" + ifs(tier == "thorough", "; both run, no disagreement tolerated", "; first definite answer"),
+			"backends":                 "race of z3 5.1.0 (z3-new), z3 4.8.12, cvc5 1.0.3" + ifs(tier == "thorough", "; all three run, no disagreement tolerated", "; first definite answer"),
 		},
 		"assumptions": nonNil(assumptions),
 		"wall_s":      time.Since(t0).Seconds(),
